@@ -189,6 +189,37 @@ class _ElseDedent(ast.NodeTransformer):
         return node
 
 
+class _HoistCond(ast.NodeTransformer):
+    """if <compound test>: ...   ->   cond_tmp_N = <test>; if cond_tmp_N: ...   (plain ifs in statement lists)."""
+
+    def __init__(self):
+        self.n = 0
+
+    def _fix(self, body):
+        out = []
+        for st in body:
+            if isinstance(st, ast.If) and isinstance(st.test, (ast.BoolOp, ast.Compare, ast.Call, ast.UnaryOp)) and not any(isinstance(x, (ast.NamedExpr, ast.Await, ast.Yield)) for x in ast.walk(st.test)):
+                self.n += 1
+                name = f"cond_tmp_{self.n}"
+                out.append(ast.Assign(targets=[ast.Name(id=name, ctx=ast.Store())], value=st.test))
+                st.test = ast.Name(id=name, ctx=ast.Load())
+            out.append(st)
+        return out
+
+    def visit_FunctionDef(self, node):
+        self.generic_visit(node)
+        for sub in ast.walk(node):
+            for field in ("body", "orelse", "finalbody"):
+                b = getattr(sub, field, None)
+                if isinstance(b, list) and b and isinstance(b[0], ast.stmt) and not isinstance(sub, ast.ClassDef) and not getattr(sub, "_hoisted_" + field, False):
+                    # an elif (orelse == [If]) must stay an elif: hoisting there would move evaluation before the first test
+                    if field == "orelse" and isinstance(sub, ast.If) and len(b) == 1 and isinstance(b[0], ast.If):
+                        continue
+                    setattr(sub, field, self._fix(b))
+                    setattr(sub, "_hoisted_" + field, True)
+        return node
+
+
 def make_neutral(root: Path, kind: str) -> None:
     src_dir = root / "src" / core.PKG
     for p in sorted(src_dir.rglob("*.py")):
@@ -215,8 +246,8 @@ def make_neutral(root: Path, kind: str) -> None:
                         rename_in(st)
             rename_in(tree)
             new = ast.unparse(tree)
-        elif kind in ("swap-eq", "nest-and", "tmp-return", "insert-log", "invert-if", "else-dedent"):
-            tree = {"swap-eq": _SwapEq, "nest-and": _NestAnd, "tmp-return": _TmpReturn, "insert-log": _InsertLog, "invert-if": _InvertIf, "else-dedent": _ElseDedent}[kind]().visit(tree)
+        elif kind in ("swap-eq", "nest-and", "tmp-return", "insert-log", "invert-if", "else-dedent", "hoist-cond"):
+            tree = {"swap-eq": _SwapEq, "nest-and": _NestAnd, "tmp-return": _TmpReturn, "insert-log": _InsertLog, "invert-if": _InvertIf, "else-dedent": _ElseDedent, "hoist-cond": _HoistCond}[kind]().visit(tree)
             if kind == "insert-log" and not any(isinstance(n, ast.Import) and any(a.name == "logging" for a in n.names) for n in tree.body):
                 tree.body.insert(1 if tree.body and isinstance(tree.body[0], ast.Expr) else 0, ast.Import(names=[ast.alias(name="logging")]))
             ast.fix_missing_locations(tree)
@@ -227,7 +258,7 @@ def make_neutral(root: Path, kind: str) -> None:
         p.write_text("# neutral variant: " + kind + "\n\n\n" + new + "\n")
 
 
-NEUTRAL_KINDS = ("unparse", "insert-pass", "rename-locals", "swap-eq", "nest-and", "tmp-return", "invert-if", "else-dedent", "insert-log")
+NEUTRAL_KINDS = ("unparse", "insert-pass", "rename-locals", "swap-eq", "nest-and", "tmp-return", "invert-if", "else-dedent", "insert-log", "hoist-cond")
 
 
 # ----------------------------------------------------------------------------
